@@ -509,4 +509,58 @@ example : ValidScale .dirichlet 2 ∧ ((24 : ℝ) / 100 ≤ 1) := by
 
 end tuning
 
+/-! ## GMRF block update: the precision multiplier (the Gaussian part of its Hastings
+bookkeeping is NOT modelled — partial) -/
+
+section block
+
+/-- density of the multiplier `f` under the two-component mixture of `propose_precision` -/
+noncomputable def multiplierDensity (s f : ℝ) : ℝ :=
+  let length := s - 1 / s
+  let w := length / (length + 2 * Real.log s)
+  w * (1 / length) + (1 - w) * (1 / (2 * f * Real.log s))
+
+/-- the mixture (uniform on `[1/s, s]` with weight `length/(length + 2 log s)`, log-uniform on
+the same interval otherwise) has density `(1 + 1/f)/(length + 2 log s)` -/
+theorem multiplier_density_eq (s f : ℝ) (hs : 1 < s) (hf : 0 < f) :
+    multiplierDensity s f = (1 + 1 / f) / (s - 1 / s + 2 * Real.log s) := by
+  have hlog : 0 < Real.log s := Real.log_pos hs
+  have hlen : 0 < s - 1 / s := by
+    have : 1 / s < 1 := by rw [div_lt_one (by linarith)]; exact hs
+    linarith
+  unfold multiplierDensity
+  simp only
+  have h1 := hlog.ne'
+  have h2 := hlen.ne'
+  have h3 : s - 1 / s + 2 * Real.log s ≠ 0 := by positivity
+  generalize Real.log s = L at *
+  generalize s - 1 / s = D at *
+  field_simp
+  ring
+
+/-- **precision_multiplier_symmetric**: `g(1/f) = f·g(f)`, i.e. for `τ′ = fτ` the proposal
+densities satisfy `q(τ|τ′) = q(τ′|τ)`: the precision move needs no Hastings correction, which is
+why `_step` returns only the Gaussian terms. -/
+theorem precision_multiplier_symmetric (s f : ℝ) (hs : 1 < s) (hf : 0 < f) :
+    multiplierDensity s (1 / f) = f * multiplierDensity s f := by
+  rw [multiplier_density_eq s f hs hf, multiplier_density_eq s (1 / f) hs (by positivity)]
+  have hlog : 0 < Real.log s := Real.log_pos hs
+  have hlen : 0 < s - 1 / s := by
+    have : 1 / s < 1 := by rw [div_lt_one (by linarith)]; exact hs
+    linarith
+  have h3 : s - 1 / s + 2 * Real.log s ≠ 0 := by positivity
+  generalize s - 1 / s + 2 * Real.log s = Z at *
+  field_simp
+  ring
+
+/-- the multiplier the model draws lies in `[1/s, s]` in the uniform branch -/
+theorem precision_multiplier_range (s u : ℝ) (hs : 1 < s) (hu0 : 0 ≤ u) (hu1 : u ≤ 1) :
+    1 / s ≤ 1 / s + (s - 1 / s) * u ∧ 1 / s + (s - 1 / s) * u ≤ s := by
+  have hlen : 0 < s - 1 / s := by
+    have : 1 / s < 1 := by rw [div_lt_one (by linarith)]; exact hs
+    linarith
+  constructor <;> nlinarith
+
+end block
+
 end TTProps.C15
